@@ -172,6 +172,8 @@ class SessionBuilder:
         op: Dict[str, Any] = {"op": "single", "c": cid, "dets": dets, "runs": _runs(self.rng, dets), "s1": s1}
         if self.rng.random() < 0.15:
             op["printers"] = self._side(self.rng)
+        if op["runs"] is None and self.rng.random() < 0.3:
+            op["post_filter"] = self.rng.choice(["0 -> 1", " 2$", "^0", "->", "1"])
         if keep:
             op["h"] = self.handle("X")
             self.tealers.append((op["h"], cid, list(dets)))
@@ -190,6 +192,8 @@ class SessionBuilder:
         op: Dict[str, Any] = {"op": "rerun", "h": h, "dets": extra, "runs": _runs(self.rng, dets), "s1": s1}
         if self.rng.random() < 0.2:
             op["printers"] = self._side(self.rng)
+        if op["runs"] is None and self.rng.random() < 0.3:
+            op["post_filter"] = self.rng.choice(["0 -> 1", " 2$", "^0", "->", "1"])
         return self.add(op)
 
     def parse(self, cid: str) -> Dict[str, Any]:
